@@ -88,7 +88,7 @@ func sharedNode(v any, memo map[string]dom.Node) dom.Node {
 	}
 }
 
-var c02TwoDigitIdx = regexp.MustCompile(`\[\d\d+\]`)
+var c02TwoDigitIdx = regexp.MustCompile(`\[(\d\d+|9)\]`)
 
 func c02Build(doc map[string]any) dom.ContainerBuilder {
 	switch len(fmt.Sprint(doc)) % 5 {
